@@ -41,6 +41,10 @@ VarProduct ==
                 (IF x[2] = "" THEN <<>> ELSE <<x[2]>>) \o (IF x[3] = "plain" THEN <<>> ELSE <<x[3]>>),
                 IF x[3] = "constant" THEN <<Num("1")>> ELSE <<>>))
        : x \in VarTypes \X {"", "public", "internal", "private"} \X {"plain", "constant", "immutable"} \X {"vv", "_vv"}}
+    \* ... names in capitals (as constants are usually named) for variables that are NOT constant: judged like any name
+    \cup {I("var:caps:" \o x[1] \o ":" \o x[2] \o ":" \o x[3], "CP",
+             StateVar(x[3], U256, (IF x[1] = "" THEN <<>> ELSE <<x[1]>>) \o (IF x[2] = "plain" THEN <<>> ELSE <<x[2]>>), <<>>))
+           : x \in {"", "public", "internal", "private"} \X {"plain", "immutable"} \X {"VV", "_VV", "MAX_V", "_MAX_V1"}}
     \* ... with an `override` specifier among the attributes, in every order: one more attribute, nothing else
     \cup {I("var:override:" \o ToString(k) \o ":" \o nm, "CP", StateVar(nm, U256, OverrideOrders[k], IF \E j \in 1 .. Len(OverrideOrders[k]) : OverrideOrders[k][j] = "constant" THEN <<Num("1")>> ELSE <<>>))
            : k \in 1 .. Len(OverrideOrders), nm \in {"vv", "_vv"}}
